@@ -585,6 +585,29 @@ def R3_loop(run):
         want = {"init", "from-price", "next-1" if ab else "next"}
         run.check("R3", "cursor[a_to_b=%d]" % ab, kinds == want, "SDK tick cursor for a_to_b=%s takes %s, expected %s" % (ab, sorted(kinds), sorted(want)), loc=b.loc(),
                   detail="reached tick => %s; otherwise tick of the new price" % ("next - 1" if ab else "next"))
+    # the cursor is recomputed from the price only when the step moved the price (same guard as the program, C10.R5)
+    pvm = Prov(b, cut=True)
+    mid_blocks = [blk for blk, _, t in pvm.var_defs(roles["tick"]) if is_call(strip(t), "sqrt_price_to_tick_index")]
+    moved = None
+    for at in A.atoms(b, cut=True):
+        c = at.cond()
+        if c and c[0] in ("Ne", "Eq"):
+            def is_step_price(t):
+                t = strip(t)
+                return t[0] == "field" and t[2] == "next_sqrt_price"
+            def is_price_var(t):
+                t = strip(t)
+                return t[0] == "var" and t[2] == roles["price"]
+            if (is_step_price(c[1]) and is_price_var(c[2])) or (is_step_price(c[2]) and is_price_var(c[1])):
+                moved = at
+    ok = moved is not None and len(mid_blocks) == 1
+    if ok:
+        yes = moved.true_targets[0] if moved.cond()[0] == "Ne" else moved.false_targets[0]
+        no = moved.false_targets[0] if moved.cond()[0] == "Ne" else moved.true_targets[0]
+        stepb = [bi for bi, t in b.calls() if (callee_path(t) or "").endswith("compute_swap_step")]
+        ok = mid_blocks[0] in cfg.reach(b, yes, cut_blocks=[moved.block]) and mid_blocks[0] not in cfg.reach(b, no, cut_blocks=[moved.block] + stepb)
+    run.check("R3", "cursor-only-if-moved", ok, "the SDK recomputes the tick cursor from the price even when the step did not move the price", loc=b.loc(),
+              detail="next price != current price => tick := sqrt_price_to_tick_index(next price)")
     # cursor / liquidity only when the step ended on the tick's price
     pv = prov_of(b, None, cut=True) if False else Prov(b, cut=True)
     reach_at = None
